@@ -645,8 +645,19 @@ def fresh_after_edit(pm: ProgramModel, ctx: Ctx, fmc: Any) -> None:
     from ..absint import reset_global_state
     from ..model import ModelBuilder
     rule = "C03-FRESH"
-    queries = sorted(n for c in pm.mro(fmc) if not c.unit.env for n, m in c.methods.items()
-                     if n.startswith("get_") and len(m.params) == 1 and not m.is_static())
+    from ..absint import DynFunc
+    queries = []
+    for n in Interp(pm).class_names(fmc):
+        if not n.startswith("get_"):
+            continue
+        m = pm.method(fmc, n)
+        if m is None or m.is_static():
+            continue
+        if isinstance(m, DynFunc) and not m.node.body:
+            queries.append(n)          # installed on the class: whether it takes arguments shows when it is called
+        elif len(m.params) == 1:
+            queries.append(n)
+    queries.sort()
     ctx.floor(rule, "parameterless queries", len(queries), 15)
     gbn = pm.method(fmc, "get_feature_by_name")
 
